@@ -26,6 +26,7 @@ pub fn pool_case(data: &[u8]) -> Option<PoolCase> {
         fused_attempts: false,
         coarse_key: false,
         built_on: 0,
+        conn_version_10: false,
     };
     let mut ops = vec![];
     while !u.is_empty() && ops.len() < 160 {
